@@ -267,6 +267,53 @@ func init() {
 				accepted++
 			}
 		}
+		// corpus layer: every line of the bundled real-world lists (quick: every 4th), and
+		// every single-character deletion / substitution of a stride of them
+		corpusStride, mutBase := 4, 120
+		if c.Thorough() {
+			corpusStride, mutBase = 1, 600
+		}
+		var corpus []string
+		for _, rel := range corpusFiles {
+			ls := corpusLines(rel)
+			for i := 0; i < len(ls); i += corpusStride {
+				corpus = append(corpus, ls[i])
+			}
+		}
+		var mutants []string
+		if len(corpus) > 0 {
+			step := len(corpus)/mutBase + 1
+			for i := 0; i < len(corpus); i += step {
+				l := corpus[i]
+				if len(l) > 60 {
+					l = l[:60]
+				}
+				for pos := 0; pos < len(l); pos++ {
+					mutants = append(mutants, l[:pos]+l[pos+1:])
+					for _, ch := range []string{"$", "|", "#", ",", "~", "\\", "=", "^"} {
+						mutants = append(mutants, l[:pos]+ch+l[pos+1:])
+					}
+				}
+			}
+		}
+		var corpusAccepted atomic.Int64
+		all := append(corpus, mutants...)
+		c.parallel(len(all), func(i int) {
+			if c.Expired() {
+				mu.Lock()
+				exhaustive = false
+				mu.Unlock()
+				return
+			}
+			if c12CheckLine(c, all[i], reqs(), false) {
+				corpusAccepted.Add(1)
+			}
+		})
+		evals += int64(len(all))
+		accepted += corpusAccepted.Load()
+		c.Run.Set("corpus_lines", int64(len(corpus)))
+		c.Run.Set("corpus_line_mutants", int64(len(mutants)))
+
 		// inertness
 		var lists [][]int
 		maxRules := 2
